@@ -392,6 +392,15 @@ func (h *Harness) Step(a Action) []Mismatch {
 			e.MustClose = true
 			e.MayCodes = map[byte]bool{1: true}
 			nc.open = false
+		case "code2-or-close":
+			// never accepted: refused with code 2 (or 4 when the authenticator refuses
+			// everybody and is asked first) or closed without an answer
+			e.MustClose = true
+			e.MayCodes = map[byte]bool{2: true}
+			if !m.auth {
+				e.MayCodes[4] = true
+			}
+			nc.open = false
 		case "accept", "accept-or-code2":
 			// a CONNECT the model accepts (fields in a.Opts)
 			if !m.auth {
@@ -577,6 +586,11 @@ func (h *Harness) compare(exps map[string]*Exp) []Mismatch {
 			continue
 		}
 		mm = append(mm, CompareC(n, got, e, h.classify)...)
+		if c.Bad == "" && !c.Dead && len(c.rx) > 0 && c.vc != nil && c.vc.Pending() == 0 {
+			// quiescence, everything read: the stream must end at a packet boundary
+			c.Bad = fmt.Sprintf("the stream to %s ends with %d bytes that are no complete packet (%x...)", c.Name, len(c.rx), head(c.rx, 16))
+			c.rx = nil
+		}
 		if c.Bad != "" {
 			mm = append(mm, Mismatch{"stream", c.Bad})
 			c.Bad = ""
